@@ -104,3 +104,87 @@ Fixpoint discipline_from (fuel : nat) (stack : list (bkind * bool)) (out : list 
 
 Definition disciplineb (out : list N) : bool :=
   discipline_from (S (List.length out)) [] out.
+
+(** ** vocabulary of the indent invariant (C15_indent_invariant).
+    [stack_after stack s]: the bracket stack [nested_from] has reached after
+    reading [s] ([None] = mismatch); [nested_from stack s = true] iff
+    [stack_after stack s = Some []]. *)
+Fixpoint stack_after (stack : list bkind) (s : list N) : option (list bkind) :=
+  match s with
+  | [] => Some stack
+  | c :: s' =>
+      match opener c with
+      | Some k => stack_after (k :: stack) s'
+      | None =>
+          match closer c with
+          | Some k =>
+              match stack with
+              | k' :: st => if bkind_eqb k k' then stack_after st s' else None
+              | [] => None
+              end
+          | None => stack_after stack s'
+          end
+      end
+  end.
+
+(** number of open scopes of kind [k] in a bracket stack *)
+Definition count_kind (k : bkind) (bs : list bkind) : nat :=
+  List.length (filter (bkind_eqb k) bs).
+
+(** number of [Big] entries of one of the formatter's two scope stacks *)
+Definition is_big (x : scope) : bool := match x with Big => true | Small => false end.
+Definition count_big (l : list scope) : nat := List.length (filter is_big l).
+
+(** ** vocabulary of the [decide_impl] characterisation: the open/close
+    balance that [scope_is_small] keeps, after one character / after a text. *)
+Definition bal_step (open close : N) (b : Z) (c : N) : Z :=
+  let b1 := if c =? open then (b + 1)%Z else b in
+  if c =? close then (b1 - 1)%Z else b1.
+
+Definition bal (open close : N) (b : Z) (l : list N) : Z :=
+  fold_left (bal_step open close) l b.
+
+(** [l = pre ++ close :: post] where [close] is the closer matching an opener
+    read at balance [b] (the balance stays positive on every prefix of [pre]
+    and is 1 after it) and no opening brace occurs before it. *)
+Definition small_split (open close : N) (b : Z) (l pre post : list N) : Prop :=
+  l = pre ++ close :: post /\
+  ~ In c_lbrace pre /\
+  (forall k, (k <= List.length pre)%nat -> (1 <= bal open close b (firstn k pre))%Z) /\
+  bal open close b pre = 1%Z.
+
+(** ** the reader's "broken" flag against the formatter's own decisions
+    (C15_broken_iff_big).  [read_broken out]: for every '(' / '<' of a text, in
+    order, is it directly followed by a line break (what [discipline_from]
+    takes for "this scope is broken over several lines"). *)
+Definition starts_nl (l : list N) : bool :=
+  match l with x :: _ => x =? c_nl | [] => false end.
+
+Fixpoint read_broken (out : list N) : list bool :=
+  match out with
+  | [] => []
+  | c :: out' =>
+      if (c =? c_lparen) || (c =? c_langle) then starts_nl out' :: read_broken out'
+      else read_broken out'
+  end.
+
+(** [big_decisions decide o input]: for every '(' / '<' of the input, in
+    order, did the oracle answer "big" (the oracle state is threaded exactly as
+    [step] threads it). *)
+Section Decisions.
+  Variable O : Type.
+  Variable decide : O -> N -> N -> list N -> bool * O.
+
+  Fixpoint big_decisions (o : O) (input : list N) : list bool :=
+    match input with
+    | [] => []
+    | ch :: rest =>
+        if ch =? c_lparen then
+          let '(small, o') := decide o c_lparen c_rparen rest in
+          negb small :: big_decisions o' rest
+        else if ch =? c_langle then
+          let '(small, o') := decide o c_langle c_rangle rest in
+          negb small :: big_decisions o' rest
+        else big_decisions o rest
+    end.
+End Decisions.
